@@ -162,3 +162,60 @@ fn api_step_xorshift() {
     let bytes = bincode::serialize(&g).unwrap();
     assert!(w32(&bytes, 0) == y && w32(&bytes, 1) == z && w32(&bytes, 2) == w && w32(&bytes, 3) == nw);
 }
+
+// ---- fill_bytes on the public API (C05): n/8 next_u64 results, then one next_u64 (tail 5..7) or one next_u32 (tail 1..4),
+// little-endian, truncated; the generator is left exactly where the equivalent next_* calls leave it.
+// BOUNDED in the length: n <= 20 (every tail length after 0, 1 and 2 full words). ----
+macro_rules! api_fill {
+    ($name:ident, $ty:ty, $n:expr, $mk:expr) => {
+        #[kani::proof]
+        #[kani::unwind(70)]
+        fn $name() {
+            let seed: [u8; $n] = kani::any();
+            let mut g = <$ty>::from_seed($mk(seed));
+            let mut r = g.clone();
+            let mut buf = [0u8; 20];
+            let n: usize = kani::any();
+            kani::assume(n <= 20);
+            g.fill_bytes(&mut buf[..n]);
+            let mut exp = [0u8; 24];
+            let mut i = 0;
+            while n - i >= 8 {
+                let w = r.next_u64().to_le_bytes();
+                let mut j = 0;
+                while j < 8 { exp[i + j] = w[j]; j += 1; }
+                i += 8;
+            }
+            let t = n - i;
+            if t > 4 {
+                let w = r.next_u64().to_le_bytes();
+                let mut j = 0;
+                while j < t { exp[i + j] = w[j]; j += 1; }
+            } else if t > 0 {
+                let w = r.next_u32().to_le_bytes();
+                let mut j = 0;
+                while j < t { exp[i + j] = w[j]; j += 1; }
+            }
+            let k: usize = kani::any();
+            kani::assume(k < n);
+            assert!(buf[k] == exp[k]);
+            assert!(g == r);              // no word skipped, repeated or left half-consumed
+        }
+    };
+}
+api_fill!(api_fill_splitmix64, rand_xoshiro::SplitMix64, 8, crate::id);
+api_fill!(api_fill_xoroshiro64star, rand_xoshiro::Xoroshiro64Star, 8, crate::id);
+api_fill!(api_fill_xoroshiro64starstar, rand_xoshiro::Xoroshiro64StarStar, 8, crate::id);
+api_fill!(api_fill_xoroshiro128plus, rand_xoshiro::Xoroshiro128Plus, 16, crate::id);
+api_fill!(api_fill_xoroshiro128plusplus, rand_xoshiro::Xoroshiro128PlusPlus, 16, crate::id);
+api_fill!(api_fill_xoroshiro128starstar, rand_xoshiro::Xoroshiro128StarStar, 16, crate::id);
+api_fill!(api_fill_xoshiro128plus, rand_xoshiro::Xoshiro128Plus, 16, crate::id);
+api_fill!(api_fill_xoshiro128plusplus, rand_xoshiro::Xoshiro128PlusPlus, 16, crate::id);
+api_fill!(api_fill_xoshiro128starstar, rand_xoshiro::Xoshiro128StarStar, 16, crate::id);
+api_fill!(api_fill_xoshiro256plus, rand_xoshiro::Xoshiro256Plus, 32, crate::id);
+api_fill!(api_fill_xoshiro256plusplus, rand_xoshiro::Xoshiro256PlusPlus, 32, crate::id);
+api_fill!(api_fill_xoshiro256starstar, rand_xoshiro::Xoshiro256StarStar, 32, crate::id);
+api_fill!(api_fill_xoshiro512plus, rand_xoshiro::Xoshiro512Plus, 64, rand_xoshiro::Seed512);
+api_fill!(api_fill_xoshiro512plusplus, rand_xoshiro::Xoshiro512PlusPlus, 64, rand_xoshiro::Seed512);
+api_fill!(api_fill_xoshiro512starstar, rand_xoshiro::Xoshiro512StarStar, 64, rand_xoshiro::Seed512);
+api_fill!(api_fill_xorshift, rand_xorshift::XorShiftRng, 16, crate::id);
